@@ -158,3 +158,11 @@ pub fn max_usize(a: usize, b: usize) -> (r: usize) ensures r == (if a >= b { a }
 pub fn min_usize(a: usize, b: usize) -> (r: usize) ensures r == (if a <= b { a } else { b }), { if a <= b { a } else { b } }
 pub fn max_u64(a: u64, b: u64) -> (r: u64) ensures r == (if a >= b { a } else { b }), { if a >= b { a } else { b } }
 pub fn min_u64(a: u64, b: u64) -> (r: u64) ensures r == (if a <= b { a } else { b }), { if a <= b { a } else { b } }
+
+// `.map_err(|_| E)`: constant error mapping (the closure ignores its argument)
+pub trait MapErrConst<T> { fn map_err_const(self, e: IggyError) -> Result<T, IggyError>; }
+impl<T> MapErrConst<T> for Result<T, IggyError> {
+    fn map_err_const(self, e: IggyError) -> (r: Result<T, IggyError>)
+        ensures self is Ok ==> r == self, self is Err ==> r is Err,
+    { match self { Ok(v) => Ok(v), Err(_) => Err(e) } }
+}
